@@ -11,7 +11,12 @@ import (
 	"testing/synctest"
 	"time"
 
+	crand "crypto/rand"
+	"crypto/sha256"
+	"sync"
+
 	"github.com/ipfs/go-cid"
+	ci "github.com/libp2p/go-libp2p/core/crypto"
 	recpb "github.com/libp2p/go-libp2p-record/pb"
 	"github.com/libp2p/go-libp2p/core/peer"
 	"github.com/libp2p/go-libp2p/core/routing"
@@ -30,6 +35,27 @@ type opPeer struct {
 	val   string // value record it holds: "-" none, "r<n>" valid rank n, "bad" invalid, "mis" other key, "nil" empty value
 	provs []int  // providers it names
 	provA map[int]bool
+}
+
+// two RSA identities (peer ids that do not inline their key), generated once per process
+var rsaOnce sync.Once
+var rsaIDs []peer.ID
+var rsaPubs [][]byte
+
+func rsaIdentities() ([]peer.ID, [][]byte) {
+	rsaOnce.Do(func() {
+		for i := 0; i < 2; i++ {
+			_, pub, err := ci.GenerateRSAKeyPair(2048, crand.Reader)
+			if err != nil {
+				panic(err)
+			}
+			id, _ := peer.IDFromPublicKey(pub)
+			b, _ := ci.MarshalPublicKey(pub)
+			rsaIDs = append(rsaIDs, id)
+			rsaPubs = append(rsaPubs, b)
+		}
+	})
+	return rsaIDs, rsaPubs
 }
 
 func opKeyMH(name string) mh.Multihash {
@@ -101,6 +127,14 @@ func (o *opRun) answer(pk *parked, rank int) parkedResult {
 	switch req.GetType() {
 	case pb.Message_GET_VALUE:
 		switch {
+		case sp.val == "pkown":
+			_, pubs := rsaIdentities()
+			m.Record = &recpb.Record{Key: req.GetKey(), Value: pubs[0]}
+		case sp.val == "pkother":
+			_, pubs := rsaIdentities()
+			m.Record = &recpb.Record{Key: req.GetKey(), Value: pubs[1]} // a well-formed key of somebody else
+		case sp.val == "pkgarbage":
+			m.Record = &recpb.Record{Key: req.GetKey(), Value: []byte("not a key")}
 		case sp.val == "mis":
 			m.Record = &recpb.Record{Key: []byte("/v/other"), Value: []byte("9:ok")}
 		case sp.val == "nil":
@@ -133,7 +167,18 @@ func (o *opRun) releaseOne(pk *parked, forceFail bool) string {
 	if pk.kind != "dial" {
 		rec := ""
 		if pk.msg.GetRecord() != nil {
-			rec = "=" + string(pk.msg.GetRecord().GetValue())
+			v := pk.msg.GetRecord().GetValue()
+			printable := true
+			for _, b := range v {
+				if b < 0x21 || b > 0x7e || b == ',' {
+					printable = false
+				}
+			}
+			if printable {
+				rec = "=" + string(v)
+			} else {
+				rec = fmt.Sprintf("=x%x", sha256.Sum256(v))[:10]
+			}
 		}
 		if pk.msg.GetType() == pb.Message_ADD_PROVIDER {
 			for _, pp := range pk.msg.GetProviderPeers() {
@@ -192,6 +237,9 @@ func runOp(c *vu.Case) {
 		o.key = "/v/" + a["key"]
 	case "findpeer":
 		o.key = "" // set below (needs the world)
+	case "getpublickey":
+		ids, _ := rsaIdentities()
+		o.key = routing.KeyForPublicKey(ids[0])
 	default:
 		keyCid = cid.NewCidV1(cid.Raw, opKeyMH(a["key"]))
 		o.key = string(keyCid.Hash())
@@ -204,7 +252,12 @@ func runOp(c *vu.Case) {
 		// the key of a peer search is the peer id: rank the pool against the target's own id
 		o.key = string(vPeer(atoi(a["target"])))
 	}
-	w := newWorld(n, o.key, opts...)
+	var special []peer.ID
+	if kind == "getpublickey" {
+		ids, _ := rsaIdentities()
+		special = []peer.ID{ids[0]} // pool member 0 is the peer whose key is searched
+	}
+	w := newWorldIDs(n, o.key, special, opts...)
 	o.w = w
 	if a["addrs"] != "-" && a["addrs"] != "" {
 		var addrs []ma.Multiaddr
@@ -287,6 +340,17 @@ func runOp(c *vu.Case) {
 			res.err = err
 			if err == nil {
 				res.peers = []int{vPeerNum(pi.ID)}
+			}
+		case "getpublickey":
+			ids, _ := rsaIdentities()
+			pk, err := w.d.GetPublicKey(ctx, ids[0])
+			res.err = err
+			if pk != nil {
+				if id, e := peer.IDFromPublicKey(pk); e == nil && id == ids[0] {
+					res.vals = append(res.vals, "pk=match")
+				} else {
+					res.vals = append(res.vals, "pk=MISMATCH")
+				}
 			}
 		case "getvalue":
 			v, err := w.d.GetValue(ctx, o.key, Quorum(atoi(a["quorum"])))
@@ -376,46 +440,36 @@ func runOp(c *vu.Case) {
 			settle()
 			out = "inflight=" + o.parkedStr()
 		case "finish":
-			// every peer that has not answered yet answers, fails or (silent ones) times out now
-			for round := 0; round < 400 && !res.returned; round++ {
-				ps := w.sender.Parked()
-				if len(ps) == 0 {
-					break
+			// every peer that has not answered yet answers, fails or (silent ones) times out now — one at a time,
+			// so that the order in which the late answers are processed is part of the (rewritten) case
+			var late []string
+			drainAll := func(force bool) {
+				for round := 0; round < 2000; round++ {
+					ps := w.sender.Parked()
+					if len(ps) == 0 {
+						return
+					}
+					sort.Slice(ps, func(x, y int) bool { return ps[x].seq < ps[y].seq })
+					pk := ps[0]
+					late = append(late, o.releaseOne(pk, force || o.peers[w.rankOf(pk.peer)].beh == 's'))
+					settle()
 				}
-				for _, pk := range ps {
-					o.releaseOne(pk, o.peers[w.rankOf(pk.peer)].beh == 's')
-				}
-				settle()
 			}
+			drainAll(false)
 			if !res.returned {
 				// let every timer of the operation run out (virtual time)
 				time.Sleep(5 * time.Minute)
 				settle()
-				for round := 0; round < 400 && !res.returned; round++ {
-					ps := w.sender.Parked()
-					if len(ps) == 0 {
-						break
-					}
-					for _, pk := range ps {
-						o.releaseOne(pk, true)
-					}
-					settle()
-				}
+				drainAll(false)
 			}
 			select {
 			case <-done:
 			default:
 			}
 			// background work: corrective puts, optimistic provide leftovers
-			for round := 0; round < 50; round++ {
-				ps := w.sender.Parked()
-				if len(ps) == 0 {
-					break
-				}
-				for _, pk := range ps {
-					o.releaseOne(pk, true)
-				}
-				settle()
+			drainAll(false)
+			if len(late) > 0 {
+				c.In[i] = "finish late=" + strings.Join(late, ",")
 			}
 			w.d.Close()
 			settle()
@@ -576,6 +630,40 @@ func genOpCase(r *vu.RNG, c *vu.Case, kinds []string) {
 }
 
 var allOpKinds = []string{"closest", "findpeer", "getvalue", "searchvalue", "findproviders", "findprovidersasync", "putvalue", "provide"}
+
+func TestVerifC04(t *testing.T) {
+	vu.Run(t, vu.Config{Prop: "C04", QuickN: 1500, ThoroughN: 40000,
+		Gen: func(r *vu.RNG, c *vu.Case) bool {
+			if c.Idx%6 == 5 {
+				// GetPublicKey: pool member 0 is the searched peer (an RSA identity); rewrite the record kinds
+				genOpCase(r, c, []string{"getpublickey"})
+				f := strings.Fields(c.In[0])
+				for j := range f {
+					if strings.HasPrefix(f[j], "peers=") {
+						specs := strings.Split(strings.TrimPrefix(f[j], "peers="), "|")
+						for k, sp := range specs {
+							p := strings.Split(sp, ":")
+							kinds := []string{"-", "-", "pkown", "pkother", "pkgarbage"}
+							if k == 0 {
+								kinds = []string{"pkown", "pkother", "pkother", "pkgarbage", "-"}
+							}
+							p[3] = kinds[r.Intn(len(kinds))]
+							specs[k] = strings.Join(p, ":")
+						}
+						f[j] = "peers=" + strings.Join(specs, "|")
+					}
+				}
+				c.In[0] = strings.Join(f, " ")
+				c.Tag("nontrivial")
+				return true
+			}
+			genOpCase(r, c, []string{"getvalue", "searchvalue"})
+			if strings.Contains(c.In[0], ":r") && (strings.Contains(c.In[0], ":bad") || strings.Contains(c.In[0], ":mis") || strings.Contains(c.In[0], ":nil")) {
+				c.Tag("nontrivial")
+			}
+			return true
+		}, Exec: execOp})
+}
 
 func TestVerifC03(t *testing.T) {
 	vu.Run(t, vu.Config{Prop: "C03", QuickN: 1200, ThoroughN: 40000,
